@@ -641,11 +641,13 @@ pub fn ci_z_normal(
     let p = x / n;
     let q = 1. - p;
 
-    if n * p < 10. {
+    // n * p and n * q are the numbers of successes and failures; they are compared as exact counts,
+    // since p = x / n is rounded (n * p may fall just below x) and is NaN for an empty population
+    if x < 10. {
         // too few successes for statistical significance
         return Err(CIError::TooFewSuccesses(successes, population, n * p));
     }
-    if n * q < 10. {
+    if n - x < 10. {
         // too few failures for statistical significance
         return Err(CIError::TooFewFailures(
             population - successes,
